@@ -258,12 +258,14 @@ CHECKS["C14"] = dict(
     text="PARTIAL: proved on the lifecycle model over the exporter model - refresh_emits_all_templates (one well-formed template message per "
          "recorded template per refresh, up to permutation, via C02), messages_not_intermixed / one_whole_message_per_write, "
          "refresh_preserves_seq, close_idempotent / repeated_close_noop / stop_channel_closed_once, no_write_after_close, peer_close_detected, "
-         "model_satisfies_spec, and lockset_exporter + model_ties by decide over facts regenerated by tools/lockfacts-exporter (every field shared "
+         "model_satisfies_spec, unbuildable_refresh_closes / after_unbuildable_refresh_sends_fail (a recorded template that cannot be rebuilt - "
+         "e.g. one with a dateTimeMicroseconds element - closes the process at the next refresh without writing, and every later send fails "
+         "instead of blocking: repair of D17), and lockset_exporter + model_ties by decide over facts regenerated by tools/lockfacts-exporter (every field shared "
          "with a background goroutine is accessed under templateMutex or atomically; exactly one Write per message). Timing, goroutine "
-         "termination and freedom from data races are observed: 12 UDP sessions (1 s refresh) and 12 TCP scenarios (50 ms connection check, peer "
+         "termination and freedom from data races are observed: 12 UDP sessions (1 s refresh), 3 UDP sessions with an unrefreshable template (every SendSet under a 2 s watchdog) and 12 TCP scenarios (50 ms connection check, peer "
          "close, concurrent repeated Close) run against harness-owned sockets under the race detector; every datagram / stream frame is parsed "
          "by the independent parser and the Spec verdicts are evaluated on every observation.",
-    design="4 (C14), 5 (D9 fixed)",
+    design="4 (C14), 5 (D9, D17 fixed)",
     note="jsonBufferLen is written after the goroutines start and read on the JSON path (statically reachable from the refresher, never taken for template sets): kept visible as lockset_exporter_all_fields_partial.")
 
 NOT_YET = {}
